@@ -162,6 +162,49 @@ func referenced(s *schemagen.Schema) map[string]bool {
 	return out
 }
 
+// bareUses: for every name (constructor name, or type name written with %) the places it is used bare: in some field
+// or argument type, and in some function result.
+func bareUses(s *schemagen.Schema) (inFields, inResults map[string]bool) {
+	inFields, inResults = map[string]bool{}, map[string]bool{}
+	var walk func(t *schemagen.TypeExpr, into map[string]bool)
+	walk = func(t *schemagen.TypeExpr, into map[string]bool) {
+		if t.Kind == "ref" {
+			short := t.Name[strings.LastIndex(t.Name, ".")+1:]
+			if t.Bare || (short != "" && short[0] >= 'a' && short[0] <= 'z') {
+				into[t.Name] = true
+			}
+		}
+		for i := range t.Args {
+			if t.Args[i].Type != nil {
+				walk(t.Args[i].Type, into)
+			}
+		}
+		for i := range t.Rep {
+			walk(&t.Rep[i].Type, into)
+		}
+	}
+	for _, c := range s.Combs {
+		for i := range c.Fields {
+			walk(&c.Fields[i].Type, inFields)
+		}
+		if c.FuncResult != nil {
+			walk(c.FuncResult, inResults)
+		}
+	}
+	return inFields, inResults
+}
+
+// referencedInFields: like referenced, but function results are left out.
+func referencedInFields(s *schemagen.Schema) map[string]bool {
+	t := &schemagen.Schema{}
+	for _, c := range s.Combs {
+		x := *c
+		x.FuncResult = nil
+		t.Combs = append(t.Combs, &x)
+	}
+	return referenced(t)
+}
+
 type evoCase struct {
 	Old   *schemagen.Schema `json:"old"`
 	Edits []edit            `json:"edits"`
@@ -176,7 +219,7 @@ type edit struct {
 
 func intType() schemagen.TypeExpr { return schemagen.TypeExpr{Kind: "ref", Name: "int"} }
 
-var safeKinds = []string{"identity", "append-masked-field", "append-masked-field", "append-two-fields-one-new-bit", "append-union-constructor", "add-type", "add-function-with-mask"}
+var safeKinds = []string{"identity", "append-masked-field", "append-masked-field", "append-two-fields-one-new-bit", "append-masked-args-to-function", "append-union-constructor", "add-type", "add-function-with-mask"}
 
 // applySafe applies one documented safe edit; returns false if no candidate position exists.
 func applySafe(s *schemagen.Schema, e edit, seq int) bool {
@@ -216,6 +259,43 @@ func applySafe(s *schemagen.Schema, e edit, seq int) bool {
 		k.c.Fields = append(k.c.Fields, schemagen.Field{Name: fmt.Sprintf("added%d", seq), Mask: &schemagen.MaskRef{Src: k.m, Bit: bit}, Type: types[e.Sub%len(types)]})
 		if e.Kind == "append-two-fields-one-new-bit" { // several new fields may share one previously unused bit
 			k.c.Fields = append(k.c.Fields, schemagen.Field{Name: fmt.Sprintf("added%dtwin", seq), Mask: &schemagen.MaskRef{Src: k.m, Bit: bit}, Type: types[(e.Sub+1)%len(types)]})
+		}
+		return true
+	case "append-masked-args-to-function":
+		// arguments of a function are fields too: one to three new arguments under free bits of a # argument whose
+		// bits are interpreted nowhere else (not a size, not handed to a type); the mask may be unused so far, and a
+		// new argument may itself be a #
+		type fcand struct {
+			c *schemagen.Comb
+			m string
+		}
+		var fcands []fcand
+		for _, c := range s.Combs {
+			if !c.IsFunc {
+				continue
+			}
+			ext := passedAsArg(c)
+			for _, f := range c.Fields {
+				if f.Type.Kind == "prim" && f.Type.Name == "#" && !ext[f.Name] {
+					fcands = append(fcands, fcand{c, f.Name})
+				}
+			}
+		}
+		if len(fcands) == 0 {
+			return false
+		}
+		fk := fcands[e.At%len(fcands)]
+		fused := usedBits(fk.c, fk.m)
+		ftypes := []schemagen.TypeExpr{{Kind: "prim", Name: "#"}, intType(), {Kind: "ref", Name: "string"}, {Kind: "ref", Name: "Bool"}, {Kind: "ref", Name: "true"}}
+		n := 1 + e.Sub%3
+		for i, b := 0, 0; i < n && b < 32; b++ {
+			bit := (b + e.Sub) % 32
+			if fused[bit] {
+				continue
+			}
+			fused[bit] = true
+			fk.c.Fields = append(fk.c.Fields, schemagen.Field{Name: fmt.Sprintf("addedarg%d_%d", seq, i), Mask: &schemagen.MaskRef{Src: fk.m, Bit: bit}, Type: ftypes[(e.Sub/3+i)%len(ftypes)]})
+			i++
 		}
 		return true
 	case "append-union-constructor":
